@@ -178,6 +178,9 @@ type peer struct {
 }
 
 func (p *peer) write(total int, seg string) {
+	// "<class>+empty": zero-length writes in between (a Write of no bytes carries nothing and ends nothing)
+	empty := strings.HasSuffix(seg, "+empty")
+	seg = strings.TrimSuffix(seg, "+empty")
 	end := p.wrote + total
 	for p.wrote < end {
 		// one announcement (Wr) per write - or, with agg set, per group of writes of at least agg bytes
@@ -193,6 +196,11 @@ func (p *peer) write(total int, seg string) {
 		}
 		hx.Emit("Wr", "c", p.c, "d", p.outDir, "n", sum)
 		for _, n := range group {
+			if empty && p.rng.Intn(3) == 0 {
+				if _, err := p.conn.Write(nil); err != nil {
+					return
+				}
+			}
 			if _, err := p.conn.Write(streamChunk(p.c, p.outDir, p.wrote, n)); err != nil {
 				return
 			}
@@ -834,7 +842,11 @@ func bridgeLibDriver(a *Args) {
 	}
 	n := 0
 	for _, rbuf := range []string{"1", "7", "small", "1024", "4096", "64k"} {
-		for _, wseg := range []string{"small", "1025", "64k"} {
+		wsegs := []string{"small", "1025", "64k"}
+		if rbuf == "7" || rbuf == "4096" {
+			wsegs = append(wsegs, "small+empty")
+		}
+		for _, wseg := range wsegs {
 			n++
 			hx.Reset(fmt.Sprintf("bridgelib-%d", n), fmt.Sprintf("bridgelib:rbuf=%s/wseg=%s", rbuf, wseg))
 			up, down := amount, amount
